@@ -6,6 +6,8 @@ package restful
 
 import (
 	"compress/zlib"
+	"io"
+	"io/ioutil"
 	"net/http"
 )
 
@@ -100,7 +102,12 @@ func (r *Request) ReadEntity(entityPointer interface{}) (err error) {
 			return NewError(http.StatusBadRequest, "Unable to unmarshal content of type:"+contentType)
 		}
 	}
-	return entityReader.Read(r, entityPointer)
+	err = entityReader.Read(r, entityPointer)
+	if err == nil && (ENCODING_GZIP == contentEncoding || ENCODING_DEFLATE == contentEncoding) {
+		// the entity is complete ; read on until the end of the compressed stream to have its checksum verified
+		_, err = io.Copy(ioutil.Discard, r.Request.Body)
+	}
+	return err
 }
 
 // SetAttribute adds or replaces the attribute with the given value.
